@@ -73,6 +73,7 @@ def run(ctx) -> None:
     clock_locals = set(match.locals_where(etc, clock))
     # launch-time carriers: attributes / items assigned, on the way to the task generator, a clock local of this pass (or another carrier)
     carriers: Set[str] = set()
+    success_carriers: Set[str] = set()      # recorded only once the launch succeeded
     gen_ids = {g.id for g in gens}
     changed = True
     while changed:
@@ -81,10 +82,25 @@ def run(ctx) -> None:
             if n.kind == "stmt" and isinstance(n.ast, ast.Assign) and len(n.ast.targets) == 1 and not isinstance(n.ast.targets[0], ast.Name):
                 v = n.ast.value
                 if (isinstance(v, ast.Name) and v.id in clock_locals) or source.src(v) in carriers:
-                    # the store is followed by the launch on every normal path (it records a launch, not e.g. a finish time)
+                    # the store is followed by the launch on every normal path (it records a launch, not e.g. a finish time) ..
                     r = cfg.reach([m for (m, l2) in n.succ if l2 is None], blocked=gens, ignore_labels=("exc",))
-                    if cfg.exit.id not in r and source.src(n.ast.targets[0]) not in carriers:
+                    before_launch = cfg.exit.id not in r
+                    # .. or sits on the success continuation of the launch (the else of the try around the generator) and stores a clock
+                    # value that was read BEFORE the launch
+                    after_success = False
+                    if isinstance(v, ast.Name) and v.id in clock_locals:
+                        defs_v = [d for d in cfg.nodes if d.kind == "stmt" and isinstance(d.ast, ast.Assign) and any(
+                            isinstance(t_, ast.Name) and t_.id == v.id for t_ in d.ast.targets)]
+                        pre = bool(defs_v) and all(cfg.every_path_to_passes(g_, gates=defs_v) for g_ in gens)
+                        in_else = any(isinstance(a_, ast.Try) and any(any(n.ast is y for y in ast.walk(st_)) for st_ in a_.orelse)
+                                      and any(any(g_.ast is y for y in ast.walk(st_)) for st_ in a_.body for g_ in gens) for a_ in source.ancestors(n.ast))
+                        after_success = pre and in_else
+                    elif source.src(v) in carriers:
+                        after_success = source.src(v) in success_carriers
+                    if (before_launch or after_success) and source.src(n.ast.targets[0]) not in carriers:
                         carriers.add(source.src(n.ast.targets[0]))
+                        if after_success and not before_launch:
+                            success_carriers.add(source.src(n.ast.targets[0]))
                         changed = True
     since = [c for c in source.calls_in(etc) if last_attr(c) == "producersHaveOutputSinceDate"]
     ctx.floor("C13.R10-cutoff-is-the-last-launch", len(since), 1, "new-producer-output tests in EngineTaskController")
@@ -109,6 +125,18 @@ def run(ctx) -> None:
                "stops having only run a task that began before the final output existed" % (
                    short(c.args[0], 60) if c.args else "<none>", ", ".join(sorted(carriers))),
                construct="producersHaveOutputSinceDate(<cutoff>) <- launch time")
+
+    # a launch that FAILED does not advance the cutoff: the carrier the new-output test reads is recorded on the success continuation of the
+    # launch only (the property setter refuses older dates, so a handler cannot put the old value back)
+    used = {source.src(a) for c in since if c.args for a in [c.args[0]] if source.src(a) in carriers}
+    for cu in sorted(used):
+        ok = cu in success_carriers
+        ctx.ob("C13.R10-cutoff-is-the-last-launch", since[0], ok,
+               "%s is recorded once the task generator has returned a task" % cu if ok else
+               "%s - the cutoff of the new-output test - is advanced BEFORE the task generator is called: when the launch that should observe "
+               "the producers' final output fails once (the generator raises), that output is no longer 'new', the following passes do not "
+               "even try to launch, use up the retries, and the observer stops without an execution that began after the last output" % cu,
+               construct="%s recorded after a successful launch" % cu)
 
     # (R1, order within a pass) the snapshot precedes the new-output test: a notification that lands after the output test of this
     # pass must leave the decision to the next pass, which looks for output again
